@@ -47,14 +47,16 @@ def check(run, model, tier):
     run.rule('HSM-CONTENT.O6-lca', 'where the entry-path routine returns r: a state of the active chain at depth m was tested equal to the target\'s ancestor at depth q, NX == m and r == q-1 (parents for source == target)')
     run.rule('HSM-CONTENT.O6-min', 'where a common-ancestor test passes for depths (m, q): m is the source, or q is the target, or the states at depths (m-1, q-1) were compared and differ - so no lower common ancestor exists (the common state is the innermost one)')
     run.rule('HSM-CONTENT.O6-cover', 'a state exited before any common-ancestor test has passed was compared with every ancestor of the target (slots 0..frontier), and the ancestor path ends at the outermost state')
+    run.rule('HSM-CONTENT.O5-first', 'the first ENTRY after an initial transition goes to the state just below the state that took it (the entry-path walk stopped there): nothing already active is entered again')
     run.rule('HSM-CONTENT.O9-init', 'INIT is sent to the current target (ghost depth 0), the state whose entry was the last one made')
     run.rule('HSM-CONTENT.O7-noraise', 'no raise statement of dispatch/trans_ is reachable by a chart that follows the handler protocol: a well-formed transition is never aborted half-way')
-    cc = hsmrules.record_content_obligations(run, model, 'dispatch', cursor_at_entry=False, kinds={'O4-content', 'O5-content', 'O6-exit', 'O6-lca', 'O6-min', 'O6-cover', 'O7-noraise', 'O9-init'})
+    cc = hsmrules.record_content_obligations(run, model, 'dispatch', cursor_at_entry=False, kinds={'O4-content', 'O5-content', 'O6-exit', 'O6-lca', 'O6-min', 'O6-cover', 'O7-noraise', 'O9-init', 'O5-first'})
     run.floor('content store obligations in dispatch+trans_', cc['O4-content'], 5)
     run.floor('content entry obligations in dispatch', cc['O5-content'], 2)
     run.floor('exit obligations in dispatch+trans_', cc['O6-exit'], 4)
     run.floor('common-ancestor obligations where trans_ returns', cc['O6-lca'], 1)
     run.floor('INIT sites in dispatch', cc['O9-init'], 1)
+    run.floor('first entries after an initial transition in dispatch', cc['O5-first'], 1)
     run.floor('common-ancestor tests judged for minimality', cc['O6-min'], 5)
     run.floor('exits of a candidate judged for complete comparison', cc['O6-cover'], 2)
     run.floor('raise statements in dispatch+trans_ proved unreachable for protocol-following charts', cc['O7-noraise'], 5)
